@@ -5,6 +5,13 @@
       scanCands    (the candidate loop with `_compute_event_matching_score`)
       matchTail    (UnhandledEvent, `_handle_event_matching`, failing / erroring heads, `_advance_head_front`)
   and the frame statement "a flow whose match did not fit the event is left untouched" is proved for scan + tail.
+
+  NOTE for a change of `CoreVM.processEvent`: `eventPrelude`, `scanCands`, `matchTail` are VERBATIM copies of its three parts and
+  `processEvent_split` proves that they compose to it — when the text of `processEvent` changes, re-copy the changed part from
+  Models/CoreVM/Run.lean (the equation tells which one: it stops being provable) and adjust `FrM.matchTail`, which navigates the
+  tail by hand (jp1 = continuation after the UnhandledEvent `if`, jp2 = continuation after `updateActionStatusByEvent`).
+  Nothing here unfolds `handleEventMatching` or `advanceHeadFront` (their frames `FrM.handleEventMatching`, C10's
+  `Fr.advanceHeadFront` are used as lemmas).
 -/
 import NemoVerif.Lemmas.ConflictFrameVM
 
